@@ -53,7 +53,8 @@ func (c16) Nontrivial(c *sim.Case, st *sim.Stats) bool {
 type c16case struct {
 	Base  []*TNode `json:"base,omitempty"`  // parent template (with blocks), nil = no inheritance
 	Tmpl  []*TNode `json:"tmpl"`            // the template rendered (child blocks when Base != nil)
-	Child bool     `json:"child,omitempty"` // Tmpl is a list of block overrides extending Base
+	Mid   []*TNode `json:"mid,omitempty"`   // optional middle level: block overrides extending Base; Tmpl then extends Mid
+	Child bool     `json:"child,omitempty"` // Tmpl is a list of block overrides extending Base (or Mid)
 	Data  *TData   `json:"data"`
 }
 
@@ -76,9 +77,20 @@ func (c16) Gen(r *sim.Rand, c *sim.Case, tier string) {
 		base = append(base, g.lit())
 		cc.Base = base
 		cc.Child = true
-		for i := 0; i < nb; i++ {
-			if r.Bool() {
-				cc.Tmpl = append(cc.Tmpl, &TNode{Kind: "block", Name: fmt.Sprintf("b%d", i), Kids: []*TNode{g.lit(), {Kind: "var", Name: tVars[r.Intn(len(tVars))]}}})
+		ovr := func(p float64) []*TNode {
+			var out []*TNode
+			for i := 0; i < nb; i++ {
+				if r.Chance(p) {
+					out = append(out, &TNode{Kind: "block", Name: fmt.Sprintf("b%d", i), Kids: []*TNode{g.lit(), {Kind: "var", Name: tVars[r.Intn(len(tVars))]}}})
+				}
+			}
+			return out
+		}
+		cc.Tmpl = ovr(0.5)
+		if r.Chance(0.4) { // three levels: base <- mid <- leaf
+			cc.Mid = ovr(0.7)
+			if cc.Mid == nil {
+				cc.Mid = []*TNode{}
 			}
 		}
 	} else {
@@ -308,14 +320,20 @@ func (c16) Exec(c *sim.Case, env *Env) []sim.Violation {
 	}
 	src := tsrc(cc.Tmpl)
 	if cc.Child {
-		src = "{{extends \"base\"}}" + src
+		if cc.Mid != nil {
+			src = "{{extends \"mid\"}}" + src
+		} else {
+			src = "{{extends \"base\"}}" + src
+		}
 	}
 	cx := &refCtx{data: cc.Data, overrides: map[string][]*TNode{}}
 	tree := cc.Tmpl
 	if cc.Child {
-		for _, b := range cc.Tmpl {
-			if b.Kind == "block" {
-				cx.overrides[b.Name] = b.Kids
+		for _, lvl := range [][]*TNode{cc.Mid, cc.Tmpl} { // the nearest definition wins
+			for _, b := range lvl {
+				if b.Kind == "block" {
+					cx.overrides[b.Name] = b.Kids
+				}
 			}
 		}
 		tree = cc.Base
@@ -349,6 +367,12 @@ func (c16) Exec(c *sim.Case, env *Env) []sim.Violation {
 				if _, err := eng.LoadTemplate("base", tsrc(cc.Base)); err != nil {
 					out = "load-error"
 					return
+				}
+				if cc.Mid != nil {
+					if _, err := eng.LoadTemplate("mid", "{{extends \"base\"}}"+tsrc(cc.Mid)); err != nil {
+						out = "load-error"
+						return
+					}
 				}
 			}
 			if _, err := eng.LoadTemplate("t", src); err != nil {
